@@ -1,6 +1,76 @@
-From Coq Require Import ZArith.
-From C14 Require Import Model ProofsBits.
+(* C14 - property theorems. Only statements, each closed by `exact <lemma>` from the Proofs files,
+   Print Assumptions beneath, and the non-vacuity examples. *)
+From Coq Require Import ZArith List Bool.
+From C14 Require Import Model ProofsBits ProofsDist.
+Import ListNotations.
 Open Scope Z_scope.
-Theorem C14_tmp : forall u, 0 <= u < two63 -> to_i64 u = u.
-Proof. exact to_i64_small. Qed.
-Print Assumptions C14_tmp.
+
+(* thm:C14_hasbits_spec. util.Bitmask.HasBitsIn(l, r) answers exactly "some bit in [l, r] is set",
+   for every byte array, every 0 <= l <= r (shift masks, first/last byte, middle loop). *)
+Theorem C14_hasbits_spec : forall b l r,
+  bytes_ok (bm_bin b) -> 0 <= l -> l <= r ->
+  (bm_has_bits_in b l r = true <-> exists i, l <= i <= r /\ bm_get b i = true).
+Proof. exact has_bits_in_spec. Qed.
+Print Assumptions C14_hasbits_spec.
+
+(* thm:C14_index_monotone. midToIndex lands inside the bitmask for EVERY uint64 (under/overflow
+   buckets included) and is monotone on the MIDs below 2^63 (int64(mid) conversion). *)
+Theorem C14_index_monotone : forall d, dist_wf d ->
+  (forall m, 0 <= mid_to_index d m < bm_size (d_mask d)) /\
+  (forall m1 m2, 0 <= m1 -> m1 <= m2 -> m2 < two63 -> mid_to_index d m1 <= mid_to_index d m2).
+Proof. intros d H. split; [intro m; exact (index_in_range d m H)|intros; apply index_monotone; assumption]. Qed.
+Print Assumptions C14_index_monotone.
+
+(* The occupancy map of ANY well-formed distribution (any window, any positive bucket) never hides
+   an added MID: a query interval that contains one intersects. *)
+Theorem C14_occupancy_sound : forall d0 ms m qf qt,
+  dist_wf d0 -> In m ms -> 0 <= qf -> qf <= m -> m <= qt -> qt < two63 ->
+  dist_is_intersecting (fold_left dist_add ms d0) qf qt = true.
+Proof. exact dist_intersect_sound. Qed.
+Print Assumptions C14_occupancy_sound.
+
+(* JSON fields (milliseconds ends, bucket in whole SECONDS): a distribution whose bucket is a
+   positive number of seconds and whose ends are int64 milliseconds is restored identically. *)
+Theorem C14_json_roundtrip : forall d k,
+  dist_wf d -> 0 < k -> d_bucket d = k * ns_per_s ->
+  - two63 <= d_from d < two63 -> - two63 <= d_to d < two63 ->
+  exists j, dist_marshal d = Some j /\ dist_unmarshal j = Some d.
+Proof. exact dist_json_roundtrip. Qed.
+Print Assumptions C14_json_roundtrip.
+
+(* thm:C14_intersect_sound. For every set of documents (MIDs below 2^63, any spread: minutes,
+   days, far past, future), every creation time and every query [qf, qt] containing a document:
+   the fraction is kept - while active (borders only), after sealing (distribution built when the
+   oldest document is >= 10 min older than the creation time, window clipped to 24 h, stub ID
+   included), and after the Info went through Save / Load (index header, .frac-cache), which
+   restores it unchanged. *)
+Theorem C14_intersect_sound : forall creation docs m qf qt,
+  is_u64 creation -> docs_ok docs -> In m docs ->
+  0 <= qf -> qf <= m -> m <= qt -> qt < two63 ->
+  info_is_intersecting (active_info creation docs) qf qt = true /\
+  info_is_intersecting (sealed_info creation docs) qf qt = true /\
+  info_roundtrip (sealed_info creation docs) = Some (sealed_info creation docs).
+Proof. exact intersect_sound. Qed.
+Print Assumptions C14_intersect_sound.
+
+(* ---------------------------------------------------------------- non-vacuity *)
+(* dist_wf is inhabited by what NewMIDsDistribution builds *)
+Example C14_wf_witness : dist_wf (dist_new 1750000000000 1750003600000 bucket_ns).
+Proof. apply dist_new_wf; reflexivity || (intro H; discriminate H). Qed.
+
+(* a sealed fraction whose documents lie 1 h and 1 min before creation really has a distribution,
+   the distribution really prunes (a query between the two documents is rejected), and the
+   hypotheses of C14_intersect_sound hold for it *)
+Example C14_pruning_happens :
+  let c := 1750000000000 in
+  let docs := [c - 3600000; c - 60000] in
+  is_u64 c /\ docs_ok docs /\
+  (exists d, i_dist (sealed_info c docs) = Some d) /\
+  info_is_intersecting (sealed_info c docs) (c - 1800000) (c - 1700000) = false /\
+  info_is_intersecting (sealed_info c docs) (c - 3600000) (c - 3600000) = true.
+Proof.
+  cbv zeta. split; [unfold is_u64, two64; split; [discriminate|reflexivity]|].
+  split. { intros x [<-|[<-|[]]]; unfold two63; split; try discriminate; reflexivity. }
+  split. { eexists. vm_compute. reflexivity. }
+  split; vm_compute; reflexivity.
+Qed.
